@@ -202,6 +202,15 @@ class ASTCFG(dict[str, WritableASTBlock]):
                     if b is not block
                 ):
                     continue
+                # Keep the block if removing it would leave a branch whose
+                # two jump targets coincide.
+                if any(
+                    len(b.jump_targets) == 2
+                    and b.jump_targets[0] != b.jump_targets[1]
+                    and set(b.jump_targets) == {name, it}
+                    for b in self.values()
+                ):
+                    continue
                 empty.add(self.pop(name))
                 # Iterate over the blocks looking for blocks that point to the
                 # removed block. Then rewire the jump_targets accordingly.
